@@ -27,14 +27,17 @@ def dht_driver(test, **kw):
 PROPS = {
     "C01": {
         "exhaustive": LOOKUP_EX,
-        "drivers": [dht_driver("TestLookupGCP")],
+        "drivers": [dht_driver("TestLookupGCP"),
+                    # lookups whose event consumer is slow (answers queue up while the lookup blocks publishing): judged by
+                    # the two-stream monitor EventsTrace.tla only
+                    {"test": "TestLookupEvents", "trace_spec": "EventsTrace.tla", "trace_cfg": "EventsTrace.cfg", "inv_cfg": {"C01": "EventsTrace_C01.cfg"}}],
         "assumptions": [
             "network, dialer and clock are simulated (FakeHost + gated message sender under testing/synctest)",
             "peer ranks (XOR distance order to the key) are computed by the harness from sha256, independently of go-libp2p-kbucket / qpeerset",
             "the routing-table library's NearestPeers is cross-checked (seed event = K nearest of ListPeers) but otherwise trusted",
             "deliveries are released one at a time and the run is quiescent between them, so 'processed' = delivered while the search phase ran",
         ],
-        "explanation": "TLC exhaustively checks Lookup.tla (implementation-shaped) for the C01 invariants; real GetClosestPeers runs (exhaustive delivery orders on small networks, seeded random on larger ones) are validated by TLC against DhtTrace.tla with the C01 clauses.",
+        "explanation": "TLC exhaustively checks Lookup.tla (implementation-shaped) for the C01 invariants; real GetClosestPeers runs (exhaustive delivery orders on small networks, seeded random on larger ones) are validated by TLC against DhtTrace.tla with the C01 clauses. A second driver runs lookups whose event consumer is scheduled like any other actor (several answers then wait while the lookup blocks publishing) and TLC validates them against EventsTrace.tla: every response event speaks for its own peer only, claims an answer only if one was delivered, and attributes to a peer only what that peer's answer named.",
     },
 }
 
@@ -103,7 +106,7 @@ PROPS["C06"] = {
     ],
     "drivers": [dht_driver("TestOpsPut"), dht_driver("TestOpsValue"), dht_driver("TestOpsOptProvide")],
     "assumptions": COMMON_ASSUME,
-    "explanation": "PutValue / Provide / corrective puts of the real IpfsDHT; recipients and message content compared with the lookup result reconstructed by the trace spec.",
+    "explanation": "PutValue / Provide / corrective puts of the real IpfsDHT; recipients and message content compared with the lookup result reconstructed by the trace spec. Recipients of store requests may also hang (never answer nor fail) until the sender gives up.",
 }
 PROPS["C08"] = {
     "exhaustive": [
@@ -135,7 +138,7 @@ PROPS["C12"] = {
         "capacity-driven replacement inside go-libp2p-kbucket is outside the property: only 'member => answered' and 'failed => leaves' are judged",
         "eviction is required for failures delivered while a user lookup is in its search phase and uncancelled, for failed liveness pings of members, and for protocol withdrawal; failures inside the refresh's own lookups are not judged (their phase is not observable)",
     ],
-    "explanation": "RTMembership.tla (admission, eviction, refresh request/answer handshake incl. shutdown) is model-checked with fairness; the real IpfsDHT is driven through identify/protocol events, probes, lookups with failing peers, cancellations, refreshes, clock advances and Close at arbitrary points; the routing table is logged at every quiescent point and validated against RTTrace.tla.",
+    "explanation": "RTMembership.tla (admission, eviction, refresh request/answer handshake incl. shutdown) is model-checked with fairness; the real IpfsDHT is driven through identify/protocol events, probes, lookups with failing peers, cancellations, refreshes, clock advances and Close at arbitrary points; the routing table is logged at every quiescent point and validated against RTTrace.tla. Some lookups are ended by the caller's deadline instead of a cancel; probes are attributed from the table at the instant they leave, in-flight pings and admission probes are counted per peer; what the refresh draws from crypto/rand is a seeded stream so that replays repeat.",
 }
 
 
@@ -155,7 +158,7 @@ PROPS["C05"] = {
         "the stored-key-match clause is judged on the node's write paths (PUT_VALUE handler, PutValue), see DESIGN 4.x",
         "two keys sharing a stripe lock are chosen by construction (same last byte)",
     ],
-    "explanation": "ValueStore.tla (datastore accesses and stripe-lock operations as atomic steps, sweeper, clock) is model-checked with three negative controls (no lock, no compare-before-delete, swapped select); the real node (PutValue, PUT_VALUE / GET_VALUE handlers over fake streams, offline GetValue, value GC) runs over a gated datastore with all interleavings of datastore accesses (capped DFS) and sequential histories with clock advances; TLC validates the datastore write log and every read result against ValueStoreTrace.tla.",
+    "explanation": "ValueStore.tla (datastore accesses and stripe-lock operations as atomic steps, sweeper, clock) is model-checked with three negative controls (no lock, no compare-before-delete, swapped select); the real node (PutValue, PUT_VALUE / GET_VALUE handlers over fake streams, offline GetValue, value GC) runs over a gated datastore with all interleavings of datastore accesses (capped DFS) and sequential histories with clock advances; TLC validates the datastore write log and every read result against ValueStoreTrace.tla. Remote PUT_VALUE records carry a receive time chosen by the sender in some cases (far future, long ago, not a time); every stored record must be stamped between the start of its call and the write.",
 }
 
 
@@ -238,7 +241,7 @@ PROPS["C20"] = {
         "concurrent Delete/Empty during a reset are outside the property and not generated",
         "the library's own select statements choose among ready cases at random, so a breach is reproduced by re-running its scenario under its recorded schedule and 300 further seeded schedules",
     ],
-    "explanation": "Keystore.tla models the atomic reset in factory mode (per-store durable/unsynced content, phases, buffered concurrent puts, marker flip, teardown, crash at any step) and is model-checked for reset atomicity with three negative controls; the real Keystore and ResettableKeystore (shared and factory mode) run random histories with clean restarts and crashes at chosen journal cuts, and resets whose every datastore access is interleaved with fed keys, concurrent puts, cancellation, Close and crash; TLC validates results, contents after every reopen and sizes against KeystoreTrace.tla.",
+    "explanation": "Keystore.tla models the atomic reset in factory mode (per-store durable/unsynced content, phases, buffered concurrent puts, marker flip, teardown, crash at any step) and is model-checked for reset atomicity with three negative controls; the real Keystore and ResettableKeystore (shared and factory mode) run random histories with clean restarts and crashes at chosen journal cuts, and resets whose every datastore access is interleaved with fed keys, concurrent puts, cancellation, Close and crash; TLC validates results, contents after every reopen and sizes against KeystoreTrace.tla. The first of the puts issued during a reset carries one, three or five keys (more than twice the reset buffer's capacity in some scenarios).",
 }
 
 PROPS["C09"] = {
@@ -255,7 +258,7 @@ PROPS["C09"] = {
         "the routing table a request is judged against is the table the node reports (RoutingTable().ListPeers()) just before the request, since buckets may refuse peers",
         "one request per stream per case plus one PING from a third peer to establish that the node still serves others",
     ],
-    "explanation": "Server.tla states the handler as a function from (node configuration, request class) to response class and TLC enumerates the whole class space against the C09 clauses with three negative controls; the real stream handler of a real DHT is fed random well-formed, malformed, oversized, stuffed and unsupported requests of every type in server and client mode with enabled/disabled value and provider subsystems, and TLC evaluates the same clauses (ServerTrace.tla) on every recorded response, reset, stored record and stored provider.",
+    "explanation": "Server.tla states the handler as a function from (node configuration, request class) to response class and TLC enumerates the whole class space against the C09 clauses with three negative controls; the real stream handler of a real DHT is fed random well-formed, malformed, oversized, stuffed and unsupported requests of every type in server and client mode with enabled/disabled value and provider subsystems, and TLC evaluates the same clauses (ServerTrace.tla) on every recorded response, reset, stored record and stored provider. Undefined message types include negative values; a third of the PUT_VALUE cases meet a better record the node already holds (the refusal path).",
 }
 
 PROPS["C10"] = {
@@ -313,7 +316,7 @@ PROPS["C11"] = {
         "time is virtual; the read timeout passes only when the schedule advances the clock",
         "the one-stream clause is applied to streams opened by calls that started after the last disconnect notification for that peer (a notification replaces the sender object while an exchange of the old one may still be running)",
     ],
-    "explanation": "Sender.tla models concurrent exchanges with one peer (map lookup, context-aware lock, stream creation, write, read bounded by timeout/context, reset-and-drop on any failure, single retry, disconnect replacing the sender object and invalidating the old one) against a remote that answers any outstanding request at any later time or never, and is model-checked for own-reply, serialization and at most one outstanding request per live stream with three negative controls; the real sender is driven by concurrent SendRequest/SendMessage/OnDisconnect calls with every environment step chosen by DFS (small scenarios) or a seeded chooser; TLC validates the wire-level traces against SenderTrace.tla.",
+    "explanation": "Sender.tla models concurrent exchanges with one peer (map lookup, context-aware lock, stream creation, write, read bounded by timeout/context, reset-and-drop on any failure, single retry, disconnect replacing the sender object and invalidating the old one) against a remote that answers any outstanding request at any later time or never, and is model-checked for own-reply, serialization and at most one outstanding request per live stream with three negative controls; the real sender is driven by concurrent SendRequest/SendMessage/OnDisconnect calls with every environment step chosen by DFS (small scenarios) or a seeded chooser; TLC validates the wire-level traces against SenderTrace.tla. Every other caller brings a deadline of its own far beyond the read timeout.",
 }
 
 PROPS["C16"] = {
@@ -333,7 +336,7 @@ PROPS["C16"] = {
         "the crawler runs over a scripted message sender and dialer; every reply order is a choice; the crawler's own stream handling is not part of this check",
         "an operation counts as hung when it has not returned after 2 virtual hours, or when the child process makes no progress for 30 s of real time (a busy loop holds the runtime's clock)",
     ],
-    "explanation": "FullRTSwap.tla models the three-lock snapshot (reader and swap lock steps) and Crawler.tla the crawl work list (seeding, dispatch, one result per job, new peers appended) over all small graphs, failing sets and seed lists with repetitions; both are model-checked with negative controls; the real FullRT answers closest-peers queries for random crawled sets with IP groups, K and diversity limits and TLC compares every result with the set-theoretic definition (FullRTTrace.tla); a reader is raced against the installation of a second crawl result under every interleaving of their lock steps; the real DefaultCrawler crawls scripted graphs with failing peers, repeated seeds and any reply order; every public operation runs on an empty or tiny table with construction options missing.",
+    "explanation": "FullRTSwap.tla models the three-lock snapshot (reader and swap lock steps) and Crawler.tla the crawl work list (seeding, dispatch, one result per job, new peers appended) over all small graphs, failing sets and seed lists with repetitions; both are model-checked with negative controls; the real FullRT answers closest-peers queries for random crawled sets with IP groups, K and diversity limits and TLC compares every result with the set-theoretic definition (FullRTTrace.tla); a reader is raced against the installation of a second crawl result under every interleaving of their lock steps; the real DefaultCrawler crawls scripted graphs with failing peers, repeated seeds and any reply order; every public operation runs on an empty or tiny table with construction options missing. Provider searches and value searches of the accelerated client are answered by every peer of its table with scripted providers / records (different records of equal rank included) in every scheduled arrival order, with a slow caller in half of the runs: no provider twice, at most count, only reported ones; the value stream strictly improving, valid, from some peer.",
 }
 
 PROPS["C15"] = {
@@ -352,7 +355,7 @@ PROPS["C15"] = {
         "GetValue: a half's lookup counts as successful when a valid record was delivered to it; which record is the best one is C04's subject",
         "FindPeer: the union is judged as 'everything the shared peerstore holds for the peer when the later half has finished', required exactly when both halves reached the peer themselves",
     ],
-    "explanation": "Dual.tla models the provider merge loop step by step (two streams without repetition, found-set, countdown, every arrival order of items and stream ends) and states write routing, value preference and the address-class filters as functions; TLC checks once-per-provider, the count cap and the functions with four negative controls; a real dual.DHT performs provide, put, get, find-peer and find-providers against scripted WAN and LAN peers whose referrals carry every mix of address classes, under every (DFS, provider merge) or seeded arrival order; TLC validates which half sent what to whom, ADD_PROVIDER payloads, results and peerstore content against DualTrace.tla.",
+    "explanation": "Dual.tla models the provider merge loop step by step (two streams without repetition, found-set, countdown, every arrival order of items and stream ends) and states write routing, value preference and the address-class filters as functions; TLC checks once-per-provider, the count cap and the functions with four negative controls; a real dual.DHT performs provide, put, get, find-peer and find-providers against scripted WAN and LAN peers whose referrals carry every mix of address classes, under every (DFS, provider merge) or seeded arrival order; TLC validates which half sent what to whom, ADD_PROVIDER payloads, results and peerstore content against DualTrace.tla. A third of the provider searches have a caller that reads nothing, cancels once every reply has been delivered and only then looks at the channel; after every other operation has returned the replies still outstanding are delivered, three virtual minutes pass with the caller's context alive and blocked goroutines are counted; in further runs both halves are servers and receive ADD_PROVIDER messages from peers announcing themselves with every address class alone and in random mixtures, and the peerstore is read afterwards.",
 }
 
 PROPS["C17"] = {
@@ -405,7 +408,7 @@ PROPS["C14"] = {
         "constructor failures are provoked through public options only (invalid mode after the stores were started, invalid validator combination, invalid LAN mode in the dual client, failing provider-manager option in the accelerated client, invalid replication factor in the sweeping provider)",
         "the dual provider wrapper and the refresh manager on its own are not exercised (the refresh manager is covered inside the standard client)",
     ],
-    "explanation": "Lifecycle.tla models the shutdown protocol the components share (signal, wait for every background goroutine, close what is owned, return; goroutines leave when signalled; operations in flight end; one or two Close calls) and is model-checked for 'nothing runs after Close returned', 'every Close returns' and 'every operation ends' (liveness) with three negative controls; the real standard client (five configurations), dual client, accelerated client, provider manager, value store, keystore, resettable keystore, sweeping provider and buffered wrapper are built, given operations that wait at gated senders and datastores, and closed one to three times at chooser-picked instants; failed constructions are provoked through public options; TLC validates returns, panics and the goroutine census against LifecycleTrace.tla.",
+    "explanation": "Lifecycle.tla models the shutdown protocol the components share (signal, wait for every background goroutine, close what is owned, return; goroutines leave when signalled; operations in flight end; one or two Close calls) and is model-checked for 'nothing runs after Close returned', 'every Close returns' and 'every operation ends' (liveness) with three negative controls; the real standard client (five configurations), dual client, accelerated client, provider manager, value store, keystore, resettable keystore, sweeping provider and buffered wrapper are built, given operations that wait at gated senders and datastores, and closed one to three times at chooser-picked instants; failed constructions are provoked through public options; TLC validates returns, panics and the goroutine census against LifecycleTrace.tla. A keystore's datastore is closed by the harness, as its owner may, once Close has returned (runs without operations): later Close calls must not go back to it. TestLifecycleRT closes the sweeping provider (and the buffered wrapper) in real time while the lookups of its network-size measurement are in flight or in their retry sleep - a window that cannot be entered under virtual time - and is judged only on whether Close returns within 30 s.",
 }
 
 
@@ -1609,8 +1612,38 @@ MUTATIONS = {
 }
 
 
+def mut_ev_foreign_heard(run):
+    """EventsTrace: a response event attributes a peer its cause never named."""
+    named = {}
+    for ev in run:
+        if ev["e"] == "Deliver" and ev.get("kind") == "req" and ev.get("out") == "ok":
+            named.setdefault(ev["p"], set()).update(ev.get("closer", []))
+    for i, ev in enumerate(run):
+        if ev["e"] == "Resp" and ev.get("cause", 0) != 0 and ev.get("queried"):
+            r = copy.deepcopy(run)
+            r[i]["heard"] = list(r[i].get("heard", [])) + [9999]
+            return r
+    return None
+
+
+def mut_ev_merged(run):
+    """EventsTrace: two response events merged into one (the second cause speaks for both)."""
+    idx = [i for i, ev in enumerate(run) if ev["e"] == "Resp" and ev.get("cause", 0) != 0 and ev.get("queried")]
+    if len(idx) < 2:
+        return None
+    a, b = idx[0], idx[1]
+    r = copy.deepcopy(run)
+    r[b]["queried"] = list(r[a]["queried"]) + list(r[b]["queried"])
+    r[b]["heard"] = list(r[a].get("heard", [])) + list(r[b].get("heard", []))
+    del r[a]
+    return r
+
+
+DRIVER_MUTATIONS = {"TestLookupEvents": [mut_ev_foreign_heard, mut_ev_merged]}
+
+
 def selftest_mutations(prop, drv, trace_path):
-    fns = MUTATIONS.get(prop, [])
+    fns = DRIVER_MUTATIONS.get(drv.get("test")) or MUTATIONS.get(prop, [])
     if not fns:
         return []
     runs = read_runs(trace_path, 60000)
